@@ -675,7 +675,7 @@ Section ResetThm.
     - rewrite Ist. discriminate.
   Qed.
 
-  (* ---- resumability for the orders the code admits (unbuffered channel: j = 4 or 5) ---- *)
+  (* ---- resumability for the orders the code lets_in (unbuffered channel: j = 4 or 5) ---- *)
   Definition y5 := apply x4 (bgc x5).
   Definition y6 := apply y5 (b4 h x4).
   Definition y7 := apply y6 (b5 x6).
